@@ -155,7 +155,9 @@ class Feed:
         elif op == "ADD_SUB":
             name, child = st["c"], st["child"]
             sp = ex.sub_placements.get(i)
-            c, v = M.add_sub(name, child, key=id(sp["obj"]) if sp else None)
+            c, v = M.add_sub(name, child, key=id(sp["obj"]) if sp else None, via_structure=st.get("via") == "structure")
+            if st.get("via") == "structure":
+                self.probe("add-sub-below-the-wrapper")
             if v.get("collision"):
                 self.key_collisions.add(("sub", name, i))
                 self.probe("copy-key-collision")
